@@ -2,6 +2,7 @@ SPECIFICATION Spec
 CONSTANTS
   MaxChunks = 4
   ApplyAsPinned = FALSE
+  EvalFnAsPinned = FALSE
 INVARIANTS TypeOK PcInRange PendingIsTail
 PROPERTIES RunDrains
 CHECK_DEADLOCK FALSE
